@@ -155,6 +155,30 @@ func init() {
 		rest(s)
 	}
 
+	// ---------- encoding/base64 ----------
+	extModelDoc["(*encoding/base64.Encoding).Decode"] = "requires len(dst) >= 3*(len(src)/4) (a lower bound of DecodedLen(len(src)) for every encoding: Decode writes up to DecodedLen bytes and panics past the end of dst); overwrites dst[0:len(dst)] with unknown bytes; returns 0 <= n <= len(dst) and an unknown error"
+	extModels["(*encoding/base64.Encoding).Decode"] = func(e *Exec, s *State, args []Val, cc *ssa.CallCommon, setRes func(*State, Val), rest func(*State)) {
+		dst, ok1 := args[1].(SliceV)
+		src, ok2 := args[2].(SliceV)
+		if !ok1 || !ok2 {
+			e.abort("base64 Decode: arguments are not slices")
+		}
+		e.safety("slice", s, fmt.Sprintf("(>= %s (* 3 (div %s 4)))", dst.Len, src.Len))
+		et := cc.Signature().Params().At(0).Type().Underlying().(*types.Slice).Elem()
+		fam := "arr_" + sanitize(et.String())
+		e.disassemble(et, fam, e.symbolicQuiet(et), func(p, so, _ string) {
+			old := e.cur(s, p, []string{"Ref", "Int"}, so)
+			nw := e.hhavoc(s, p, []string{"Ref", "Int"}, so)
+			s.assume("(forall ((r Ref) (i Int)) (! (=> (not (and (= r %s) (<= %s i) (< i (+ %s %s)))) (= (%s r i) (%s r i))) :pattern ((%s r i))))", dst.Arr, dst.Off, dst.Off, dst.Len, nw, old, nw)
+		})
+		rt := cc.Signature().Results()
+		n := e.symbolic(s, rt.At(0).Type(), "b64n").(Scalar)
+		s.assume("(and (<= 0 %s) (<= %s %s))", n.T, n.T, dst.Len)
+		er := e.symbolic(s, rt.At(1).Type(), "b64err")
+		setRes(s, Tuple{E: []Val{n, er}})
+		rest(s)
+	}
+
 	// ---------- sort.Slice ----------
 	extModelDoc["sort.Slice"] = "permutes the slice in place so that less(j, i) is false for all i < j; nothing else changes"
 	extModels["sort.Slice"] = func(e *Exec, s *State, args []Val, cc *ssa.CallCommon, setRes func(*State, Val), rest func(*State)) {
